@@ -159,7 +159,9 @@ Inductive yv :=
 (* results only *)
 | YSet (l : list yv)
 | YToken (s : str)               (* RuntimeToken(token) *)
-| YDev (section name : str).     (* the device object machine.<section>[name] *)
+| YDev (section name : str)      (* the device object machine.<section>[name] *)
+| YNative (v : yv)               (* placeholder_manager.NativeTypeTemplate(value) *)
+| YTemplate (cls text : str).    (* an Int/Float/Bool/String/TextTemplate built from the text (opaque) *)
 
 (* ---- characters and strings ------------------------------------------------------------------- *)
 Definition is_digit (c : Z) : bool := (48 <=? c) && (c <=? 57).
